@@ -553,8 +553,14 @@ func (in *c02Inst) walk(p []string) (*node, syscall.Errno) {
 	return d, 0
 }
 
-func (in *c02Inst) read(f int, off int64, length int) map[string]any {
-	res := map[string]any{"n": 0, "err": false, "bytes": []int{}}
+func (in *c02Inst) read(f int, off int64, length int) (res map[string]any) {
+	res = map[string]any{"n": 0, "err": false, "bytes": []int{}}
+	// a panic of the read path while serving a well-formed layer is recorded as what it is: a failed read
+	defer func() {
+		if r := recover(); r != nil {
+			res = map[string]any{"n": 0, "err": true, "bytes": []int{}, "msg": fmt.Sprintf("panic: %v", r)}
+		}
+	}()
 	if in.b.l.Via == "reader" {
 		ra, err := in.rr.OpenFile(in.ids[f])
 		if err != nil {
